@@ -56,10 +56,10 @@ vlib.standard_check({
             "makes post-processing retime the write ports and generate hazard bypass logic), depth in {2,4,8,16,32,64} and {3,5,6,7,12,17,24,100}, width in "
             "{1,2,3,4,5,8,12,16,33}, MemType x read latency 0..3, no/zero/random/partial declared power-on contents (present iff ROM or the write clock's initializeMemory: explicit initializeRegs x initializeMemory clocks), clock with and without synchronous reset, memory "
             "reset logic (memoryResetType SYNCHRONOUS / ASYNCHRONOUS; initZero, addResetLogic network, reset ROM; depth 1, 2, 2^k, non 2^k; reset held 0..3 cycles longer than required; writes during reset or forced right after it), read latency registers with reset values and/or enable scopes (none / one read enable / per-stage enables with own, shared or no pin; RAMs and ROMs; enables low for 1..4 cycles after reset then toggling independently of the addresses; read-modify-write with the write port in the read enable's scope), checked against ArrMem followed by the proved enable-gated pipeline model (pipeStep), no device / Intel Arria 10, Cyclone 10 / Xilinx Kintex Ultrascale, Zynq-7; random access sequences with "
-            "two hot addresses and same-address bursts; every cycle: model vs sampled async read data (DIFF), data pins before and after design.postprocess() "
+            "two hot addresses and same-address bursts; every cycle: address / enable / data of every port are DERIVED from the applied pin stimulus and the declared program (ports in declaration order, address pins wider / narrower than the memory address, IF condition and-ed with the enclosing ENIF, read-modify-write data) and the values sampled at the Node_MemPort inputs are only compared with that (DIFF); the number of reset cycles is predicted from the configuration and compared (DIFF); model vs sampled async read data (DIFF), data pins before and after design.postprocess() "
             "vs ArrMem with the declared latency (PROPFAIL); non-trivial = same-cycle read-after-write and write-write collisions + designs with bypass logic",
     "trusted_base": ["Lean 4.33 kernel", "axioms: propext, Classical.choice, Quot.sound only (audited per theorem)",
-                     "harness/c07.cpp + Driver/C07.lean line protocol", "gatery's ReferenceSimulator as the semantics of the post-processed netlist (registers, muxes, vendor primitive models)"],
+                     "harness/c07.cpp + Driver/C07.lean line protocol (no value obtained from the implementation is an input of model or specification: stimulus and declared program only)", "gatery's ReferenceSimulator as the semantics of the post-processed netlist (registers, muxes, vendor primitive models)"],
     "level_text": "Lean spec ArrMem; Lean model of Node_MemPort::simulateEvaluate/simulateAdvance proved to refine ArrMem for every port list and access sequence; "
                   "Lean models of convertToReadBeforeWrite, resolveWriteOrder (loop as written) and of the ReadModifyWriteHazardLogicBuilder pipeline proved sound for all "
                   "port counts and all latencies K>=1 and composed into 'post-processed data pin at t+K = ArrMem at t'; the MemPort model is tied to the code by differential "
